@@ -608,7 +608,14 @@ func parseMonthName(parts []string, monthPos int) (string, error) {
 
 var dateRegexp = regexp.MustCompile(
 	fmt.Sprintf(`(?i)^(%s|%s|%s)? ?(\d+ )?(\w+ )?(\d+)$`,
-		DateWordsAbout, DateWordsBefore, DateWordsAfter))
+		dateWordsPattern(DateWordsAbout), dateWordsPattern(DateWordsBefore),
+		dateWordsPattern(DateWordsAfter)))
+
+// dateWordsPattern prepares one of the DateWords constants for use in a regular
+// expression. The dot in words like "Abt." must only match a dot.
+func dateWordsPattern(words string) string {
+	return strings.Replace(words, ".", `\.`, -1)
+}
 
 func parseDateParts(dateString string, isEndOfRange bool) Date {
 	parts := dateRegexp.FindStringSubmatch(dateString)
